@@ -341,6 +341,15 @@ func Terminates(f func(), label string) bool {
 	}
 }
 
+// SharedWrites: under the engine, f and g are run with every memory write
+// recorded; cells written by both without a common lock are a violation.
+// Natively it just runs both (the race-detector witness confirms a finding).
+func SharedWrites(f, g func(), label string) bool {
+	f()
+	g()
+	return false
+}
+
 var pending []chan struct{}
 
 // Concurrently runs f as another thread of control started at this point. It
